@@ -13,11 +13,18 @@ let () =
   Printf.printf "SIZE %d\n" size;
   let sz = n_of_int64 (Int64.of_int size) in
   let r = ref ring0 in
+  let pending_line = ref None in
+  (match (try Some (input_line stdin) with End_of_file -> None) with
+   | Some l when String.length l > 6 && String.sub l 0 6 = "START " ->
+       let st = Scanf.sscanf l "START %Lu" (fun x -> x) in print_endline l;
+       r := { ring0 with h = n_of_int64 st; t = n_of_int64 st }     (* unbounded counters from here on; printed modulo 2^64 (DeferWrap.rep_enq) *)
+   | Some l -> pending_line := Some l
+   | None -> ());
   let idx = Array.init size (fun i -> n_of_int64 (Int64.of_int i)) in
   let cur = ref (Array.make size N0) in
   let nops = ref 0 in
   try while true do
-    let l = input_line stdin in
+    let l = (match !pending_line with Some l -> pending_line := None; l | None -> input_line stdin) in
     let head = List.hd (String.split_on_char '|' l) in
     let toks = List.filter (fun s -> s <> "") (String.split_on_char ' ' head) in
     let op = match toks with
